@@ -52,6 +52,8 @@ type PfcpServer struct {
 	trToCh       chan TransactionTimeout
 	done         chan struct{} // closed when the main loop has stopped
 	conn         *net.UDPConn
+	connMu       sync.Mutex // guards conn and stopped between main() and Stop()
+	stopped      bool
 	recoveryTime time.Time
 	driver       forwarder.Driver
 	lnode        LocalNode
@@ -112,7 +114,17 @@ func (s *PfcpServer) main(wg *sync.WaitGroup) {
 		s.log.Errorf("Listen err: %+v", err)
 		return
 	}
+	s.connMu.Lock()
 	s.conn = conn
+	stopped := s.stopped
+	s.connMu.Unlock()
+	if stopped {
+		// Stop() was called before the socket existed
+		if err = conn.Close(); err != nil {
+			s.log.Errorf("Stop pfcp server err: %+v", err)
+		}
+		return
+	}
 
 	wg.Add(1)
 	go s.receiver(wg)
@@ -236,8 +248,12 @@ func (s *PfcpServer) Start(wg *sync.WaitGroup) {
 
 func (s *PfcpServer) Stop() {
 	s.log.Infoln("Stopping pfcp server")
-	if s.conn != nil {
-		err := s.conn.Close()
+	s.connMu.Lock()
+	s.stopped = true
+	conn := s.conn
+	s.connMu.Unlock()
+	if conn != nil {
+		err := conn.Close()
 		if err != nil {
 			s.log.Errorf("Stop pfcp server err: %+v", err)
 		}
